@@ -6,6 +6,41 @@ def zi(v):
     return _z(v)
 
 
+FLOATS = ('f2', 'f4', 'f8')
+_RANK = {'i1': 1, 'u1': 1, 'i2': 2, 'i4': 3, 'i8': 4, 'f2': 5, 'f4': 6, 'f8': 7}
+RND = {d: z3.Function('RND_' + d, z3.RealSort(), z3.RealSort()) for d in ('f2', 'f4')}
+DTYPE_AWARE = False   # checks that reason about working precision switch this on
+
+
+def promote(a, b):
+    if not DTYPE_AWARE or a not in _RANK or b not in _RANK:
+        return a
+    if (a in FLOATS) != (b in FLOATS):
+        # int array with float array: float64 unless the int fits (int16 + float32 -> float32; int32+ -> float64)
+        fl, it = (a, b) if a in FLOATS else (b, a)
+        if it in ('i4', 'i8') or (it == 'i2' and fl == 'f2'):
+            return 'f8'
+        return fl
+    return a if _RANK[a] >= _RANK[b] else b
+
+
+def promote_scalar(a, o):
+    """NEP 50: python scalars are weak; a python float with an integer array gives float64"""
+    if not DTYPE_AWARE or a not in _RANK:
+        return a
+    from .symex import SReal as _SR
+    is_float = isinstance(o, (float, _SR)) or (isinstance(o, z3.ExprRef) and o.sort() == z3.RealSort() and not z3.is_int_value(o))
+    if a in FLOATS:
+        return a
+    return 'f8' if is_float else a
+
+
+def rounder(dt):
+    if DTYPE_AWARE and dt in RND:
+        return RND[dt]
+    return None
+
+
 class Store:
     def __init__(self, shape, get):
         self.shape = tuple(shape); self.get = get   # get(tuple of z3 ints)->term
@@ -45,6 +80,9 @@ class ND:
     def _view(self, key):
         if not isinstance(key, tuple): key = (key,)
         shape = self.shape
+        if any(k is Ellipsis for k in key):
+            i = [j for j, k in enumerate(key) if k is Ellipsis][0]
+            key = tuple(key[:i]) + (slice(None),) * (len(shape) - (len(key) - 1)) + tuple(key[i + 1:])
         key = list(key) + [slice(None)] * (len(shape) - len(key))
         assert len(key) == len(shape), (key, shape)
         # per view axis: new spec
@@ -125,10 +163,16 @@ class ND:
                 ia = tuple(z3.IntVal(0) if (isinstance(x, int) and x == 1) else i for i, x in zip(idx, pa))[nd - len(sa):]
                 ib = tuple(z3.IntVal(0) if (isinstance(y, int) and y == 1) else i for i, y in zip(idx, pb))[nd - len(sb):]
                 return f(ga(ia), gb(ib))
-            return ND.fresh(tuple(shape), get, self.dtype)
+            dt = promote(a.dtype, b.dtype)
+            rnd = rounder(dt)
+            return ND.fresh(tuple(shape), (lambda idx: rnd(get(idx))) if rnd is not None else get, dt)
         g = self.snapshot()
         oz = o if isinstance(o, z3.ExprRef) else rv(o)
-        return ND.fresh(self.shape, lambda idx: f(g(idx), oz), self.dtype)
+        dt = promote_scalar(self.dtype, o)
+        rnd = rounder(dt)
+        if getattr(self, '_swap', False):
+            return ND.fresh(self.shape, (lambda idx: rnd(f(oz, g(idx)))) if rnd is not None else (lambda idx: f(oz, g(idx))), dt)
+        return ND.fresh(self.shape, (lambda idx: rnd(f(g(idx), oz))) if rnd is not None else (lambda idx: f(g(idx), oz)), dt)
     def __mul__(self, o): return self._bin(o, rmul)
     __rmul__ = __mul__
     def __add__(self, o): return self._bin(o, lambda a, b: a + b)
@@ -195,3 +239,47 @@ def nd_rows(a):
     n = n.__index__() if isinstance(n, SInt) else n
     m = m.__index__() if isinstance(m, SInt) else m
     return [[z3.simplify(a.get(z3.IntVal(r), z3.IntVal(c))) for c in range(m)] for r in range(n)]
+
+
+def _isub(self, o):
+    r = self - o
+    if DTYPE_AWARE and isinstance(r, ND) and r.dtype != self.dtype and self.dtype in FLOATS:
+        rnd = rounder(self.dtype)
+        if rnd is not None:
+            g = r.snapshot()
+            r = ND.fresh(r.shape, lambda idx: rnd(g(idx)), self.dtype)
+    self[(slice(None),) * self.ndim] = r
+    return self
+ND.__isub__ = _isub
+
+
+def _rsub(self, o):
+    self._swap = True
+    try:
+        return self._bin(o, lambda a, b: a - b)
+    finally:
+        self._swap = False
+ND.__rsub__ = _rsub
+
+CAST = {}
+
+
+def cast_fn(dt):
+    if dt not in CAST:
+        CAST[dt] = z3.Function('CAST_' + dt, z3.RealSort(), z3.RealSort())
+    return CAST[dt]
+
+
+def _astype(self, dt, copy=True):
+    """value model: widening to float64 is exact (identity); any other change of dtype is an uninterpreted cast"""
+    dt = getattr(dt, 'name', dt)
+    if dt == self.dtype:
+        if not copy:
+            return self
+        return ND.fresh(self.shape, self.snapshot(), dt)
+    g = self.snapshot()
+    if dt == 'f8' or not DTYPE_AWARE:
+        return ND.fresh(self.shape, g, dt)
+    c = cast_fn(dt)
+    return ND.fresh(self.shape, lambda idx: c(g(idx)), dt)
+ND.astype = _astype
